@@ -35,6 +35,15 @@ impl GridCollection {
     fn get_grid(&mut self, name: &str, paths: &[PathBuf]) -> Result<Arc<dyn Grid>, Error> {
         // If the grid is already there, just return a reference clone
         if let Some(grid) = self.0.get(name) {
+            #[cfg(geodesy_verif)]
+            crate::verif::emit(
+                "grid_get",
+                vec![
+                    ("name", name.to_string()),
+                    ("outcome", "hit".to_string()),
+                    ("obj", format!("{:p}", Arc::as_ptr(grid) as *const u8)),
+                ],
+            );
             return Ok(grid.clone());
         }
 
@@ -62,9 +71,26 @@ impl GridCollection {
                     .insert(name.to_string(), Arc::new(BaseGrid::gravsoft(&grid)?));
             }
             if let Some(grid) = self.0.get(name) {
+                #[cfg(geodesy_verif)]
+                crate::verif::emit(
+                    "grid_get",
+                    vec![
+                        ("name", name.to_string()),
+                        ("outcome", "load".to_string()),
+                        ("obj", format!("{:p}", Arc::as_ptr(grid) as *const u8)),
+                    ],
+                );
                 return Ok(grid.clone());
             }
         }
+        #[cfg(geodesy_verif)]
+        crate::verif::emit(
+            "grid_get",
+            vec![
+                ("name", name.to_string()),
+                ("outcome", "notfound".to_string()),
+            ],
+        );
         Err(Error::NotFound(name.to_string(), ": Grid".to_string()))
     }
 }
@@ -78,6 +104,15 @@ impl Plain {
     /// even though they may still be in use by some remaining operator
     /// instantiations.
     pub fn clear_grids() {
+        // With the verification guard on: same effect, but the event is
+        // emitted while the cache mutex is still held
+        #[cfg(geodesy_verif)]
+        if let Some(grids) = GRIDS.get() {
+            let mut guard = grids.lock().unwrap();
+            guard.0.clear();
+            crate::verif::emit("grid_clear", vec![]);
+            return;
+        }
         if let Some(grids) = GRIDS.get() {
             grids.lock().unwrap().0.clear();
         }
